@@ -154,6 +154,7 @@ type Policy struct {
 	HardAdvance bool // clock advances also age parked calls (slow server / webhook), by up to 1.5 s per step
 	WatchGone   int  // permille per served WATCH request: answer 410 Gone, which makes the reflector relist (tombstones for what vanished meanwhile)
 	FaultFilter func(r *ReqRec) bool
+	Batch       int // permille per step: answer every parked call in one step (co-release)
 }
 
 // EnvOp is one environment operation offered by the scenario.
@@ -226,6 +227,9 @@ type World struct {
 	InlineUnsyncedHooks bool
 	Stages              []Stage
 	ss                  stageState
+	fp                  *fpState
+	raceBase            int
+	RaceProp            string
 	lastSig             int
 	budget              bool
 	budgetAt            string
@@ -1043,6 +1047,10 @@ func (w *World) checkInvariants() {
 		w.Violation = v
 		return
 	}
+	if v := w.checkRace(); v != nil && !w.Known(v) {
+		w.Violation = v
+		return
+	}
 	for _, inv := range w.Invariants {
 		if v := inv(w); v != nil && !w.Known(v) {
 			if v.Step == 0 {
@@ -1067,7 +1075,7 @@ func (w *World) StepOnce(p *Policy) bool {
 	if w.Violation != nil || w.step >= w.MaxSteps {
 		return false
 	}
-	w.step++
+	w.bumpStep()
 	w.Store.Step = w.step
 	t := w.T
 
@@ -1120,6 +1128,37 @@ func (w *World) StepOnce(p *Policy) bool {
 	a := acts[0]
 	if p.Shuffle {
 		a = acts[t.Pick(len(acts), "which")]
+	}
+	if p.Batch > 0 && a.kind != "deliver" && t.Chance(p.Batch, "batch?") {
+		// co-release: every parked call is answered within this one step, so the
+		// released goroutines run concurrently with no kernel step (and no
+		// happens-before edge) between them
+		n := 0
+		for _, b := range acts {
+			switch b.kind {
+			case "serve":
+				fault := ""
+				if p.APIFault > 0 && len(p.APIFaults) > 0 && (p.FaultFilter == nil || p.FaultFilter(b.req)) && t.Chance(p.APIFault, "apifault?") {
+					fault = p.APIFaults[t.Pick(len(p.APIFaults), "apifault")]
+				}
+				w.Serve(b.req, fault)
+				n++
+			case "hook":
+				fault := ""
+				if p.HookFault > 0 && len(p.HookFaults) > 0 && t.Chance(p.HookFault, "hookfault?") {
+					fault = p.HookFaults[t.Pick(len(p.HookFaults), "hookfault")]
+				}
+				w.answerHookWithProgram(b.hook, fault)
+				n++
+			}
+		}
+		if n > 1 {
+			w.FaultsFired["co-release"]++
+			w.Probes["co-released-calls"] += n
+		}
+		w.settle()
+		w.checkInvariants()
+		return w.Violation == nil
 	}
 	switch a.kind {
 	case "deliver":
@@ -1364,4 +1403,11 @@ func (w *World) Known(v *Violation) bool {
 		}
 	}
 	return false
+}
+
+// bumpStep starts the next kernel step (other goroutines read the step under w.mu).
+func (w *World) bumpStep() {
+	w.mu.Lock()
+	w.step++
+	w.mu.Unlock()
 }
